@@ -121,7 +121,7 @@ theorem evalSel_error (env : Env N) (ctx : Ctx N) (cur : Row N) (sel : List (Sel
 
 /-- the injected fault: `VF_FAIL(x)` fails exactly on the configured argument value -/
 theorem vf_fail_fails (env : Env N) (ctx : Ctx N) (cur : Row N) (a : Expr N) (x : IVal N) (v w : Val N)
-    (ha : evalExpr env ctx cur a = .ok x) (hv : valueOf cur x = .ok v) (hw : env.failOn = some w)
+    (ha : evalExpr env { ctx with hard := false } cur a = .ok x) (hv : valueOf cur x = .ok v) (hw : env.failOn = some w)
     (heq : valEq v w = true) : evalExpr env ctx cur (.func .none "vf_fail" [a]) = .error .error := by
   simp [evalExpr, evalArgs, ha, hv, hw, heq, bind, Except.bind, pure, Except.pure]
 
